@@ -396,3 +396,7 @@ fn report_shutdown(reason: &eyre::Result<&str>) {
         Err(reason) => error!(%reason, "starting shutdown"),
     }
 }
+
+#[cfg(all(test, feature = "verif"))]
+#[path = "/verif/harness/relayer/relayer_mc.rs"]
+mod verif_relayer;
